@@ -115,8 +115,9 @@ Example former_witnesses_rejected :
   (exists e, from_raw_parts LE [] = Err e) /\ (exists e, from_raw_parts LE wit_short = Err e) /\ (exists e, from_raw_parts LE wit_name = Err e).
 Proof. repeat (match goal with |- _ /\ _ => split end); eexists; vm_compute; reflexivity. Qed.
 
-(* non-vacuity: an accepted message: a signal with four fields (one of them unknown, carrying an array of structures) and a body *)
+(* non-vacuity: an accepted 124-byte signal: flags 0x0a (one unknown bit), path, an unknown field 200 carrying an array of
+   (string, u32) structures, interface, member, signature "u", body 42 *)
 Definition ex_msg : bytes :=
-  unhex "6c04000104000000070000003700000001016f00040000002f612f62000000000201730003000000612e6200000000000301730001000000530000000000000008016700017500002a000000".
+  unhex "6c040a0104000000070000006700000001016f00040000002f612f6200000000c8056128737529001c000000000000000100000078000000050000000000000002000000797a000006000000000000000201730003000000612e6200000000000301730001000000530000000000000008016700017500002a000000".
 Example ex_accepted : exists m h bd, from_raw_parts LE ex_msg = Ok m /\ header m = Ok h /\ body m = Ok bd.
 Proof. eexists. eexists. eexists. repeat (match goal with |- _ /\ _ => split end); vm_compute; reflexivity. Qed.
